@@ -117,7 +117,7 @@ pub fn bnd_c08() {
             let want: Vec<usize> = (1..=n).collect();
             if ms != want { rep.found(&input, &format!("reference markers {:?}, expected {:?}; output {:?}", ms, want, out)); continue; }
             let mut ok = true;
-            for k in 1..=n { if !flat.contains(&format!("L{}[{}]", k, k)) { ok = false; } }
+            for k in 1..=n { if !flat.contains(&format!("L{}[{}]", k, k)) && !flat.contains(&format!("L{}][{}]", k, k)) { ok = false; } }
             if !ok { rep.found(&input, &format!("some link text is not followed by its own number; output {:?}", out)); continue; }
             let want_heads: Vec<(usize, String)> = (1..=n).map(|k| (k, hrefs[k - 1].clone())).collect();
             if heads != want_heads { rep.found(&input, &format!("footnote list {:?}, expected {:?}; output {:?}", heads, want_heads, out)); continue; }
